@@ -12,6 +12,15 @@ func vrC13SmallIndex() *ShapeIndex {
 	return idx
 }
 
+func vrC13NewQuery(idx *ShapeIndex, closest bool, mr int) *EdgeQuery {
+	if closest {
+		return NewClosestEdgeQuery(idx, NewClosestEdgeQueryOptions().MaxResults(mr))
+	}
+	return NewFurthestEdgeQuery(idx, NewFurthestEdgeQueryOptions().MaxResults(mr))
+}
+
+// every call on a used query object returns what the same call returns on a fresh
+// query object with the same index and options
 func Harness_C13_edgequery_history() {
 	vr.Domain("FPX")
 	vr.Unwind(200)
@@ -19,31 +28,39 @@ func Harness_C13_edgequery_history() {
 	mr := vr.Int("maxResults")
 	vr.Assume(vr.And(mr >= 1, mr <= 6))
 	closest := vr.Bool("closest")
-	var q *EdgeQuery
 	var target distanceTarget
 	tp := PointFromCoords(0.9, 0.4, 0.35)
 	if closest {
-		q = NewClosestEdgeQuery(idx, NewClosestEdgeQueryOptions().MaxResults(mr))
 		target = NewMinDistanceToPointTarget(tp)
 	} else {
-		q = NewFurthestEdgeQuery(idx, NewFurthestEdgeQueryOptions().MaxResults(mr))
 		target = NewMaxDistanceToPointTarget(tp)
 	}
+	q := vrC13NewQuery(idx, closest, mr)
 	r1 := append([]EdgeQueryResult(nil), q.FindEdges(target)...)
+	limits := [3]s1.ChordAngle{0, 0.5, s1.StraightChordAngle}
 	for step := 0; step < 2; step++ {
 		op := vr.Int("op")
 		vr.Assume(vr.And(op >= 0, op <= 4))
+		li := vr.Int("limit")
+		vr.Assume(vr.And(li >= 0, li <= 2))
+		limit := limits[0]
+		if li == 1 {
+			limit = limits[1]
+		} else if li == 2 {
+			limit = limits[2]
+		}
+		fresh := vrC13NewQuery(idx, closest, mr)
 		switch {
 		case op == 0:
-			_ = q.Distance(target)
+			vr.Assert("Distance on a used query == fresh query", q.Distance(target) == fresh.Distance(target))
 		case op == 1:
-			_ = q.IsDistanceLess(target, s1.ChordAngle(0.5))
+			vr.Assert("IsDistanceLess on a used query == fresh query", q.IsDistanceLess(target, limit) == fresh.IsDistanceLess(target, limit))
 		case op == 2:
-			_ = q.IsDistanceGreater(target, s1.ChordAngle(0.5))
+			vr.Assert("IsDistanceGreater on a used query == fresh query", q.IsDistanceGreater(target, limit) == fresh.IsDistanceGreater(target, limit))
 		case op == 3:
-			_ = q.IsConservativeDistanceLessOrEqual(target, s1.ChordAngle(0.5))
+			vr.Assert("IsConservativeDistanceLessOrEqual on a used query == fresh query", q.IsConservativeDistanceLessOrEqual(target, limit) == fresh.IsConservativeDistanceLessOrEqual(target, limit))
 		default:
-			_ = q.FindEdges(target)
+			vr.Assert("FindEdges on a used query == fresh query", vrSameResults(q.FindEdges(target), fresh.FindEdges(target)))
 		}
 	}
 	r2 := q.FindEdges(target)
